@@ -91,3 +91,220 @@ unit(id="ifelse.exec", src=CF + "if_else.rs", path=[("impl", "Exec for IfElse"),
           f"{COND} == Ok::<Variable, ExecStop>(Variable::Bool(false)) ==> "
           f"r == eval_res(self.if_false.instruction, {COND_ST}) && {S9} == eval_st(self.if_false.instruction, {COND_ST})"),
      ])
+
+LOGIC = "src/instruction/bin_op/logic.rs"
+for _m, _dec, _short in (("and", "false", "false"), ("or", "true", "true")):
+    unit(id=f"{_m}.exec", src=LOGIC, path=[("mod", _m), ("fn", "exec")], mod=_m,
+         requires=["lhs is Bool"],
+         ensures=[
+             (f"{_m}.exec.short_circuit", ["C07"],
+              f"lhs == Variable::Bool({_dec}) ==> r == Ok::<Variable, ExecStop>(Variable::Bool({_short})) && {S9} == {S0}"),
+             (f"{_m}.exec.rhs_once_when_undecided", ["C07"],
+              f"lhs == Variable::Bool(!{_dec}) ==> r == eval_res(*rhs, {S0}) && {S9} == eval_st(*rhs, {S0})"),
+         ])
+
+# ---------------------------------------------------------------- BinOperation::exec ------
+BINOP = "src/instruction/bin_op.rs"
+L = f"eval_res(self.lhs, {S0})"
+S1 = f"eval_st(self.lhs, {S0})"
+R = f"eval_res(self.rhs, {S1})"
+S2 = f"eval_st(self.rhs, {S1})"
+OKV = "Ok::<Variable, ExecStop>"
+_strict = "!(self.op is And) && !(self.op is Or)"
+_both = f"{_strict} && {L} is Ok && {R} is Ok"
+_ens = [
+    ("binop.exec.lhs_first_error_stops", ["C07"], f"{L} is Err ==> r == {L} && {S9} == {S1}"),
+    ("binop.exec.and_short_circuit", ["C07"],
+     f"self.op is And && {L} == {OKV}(Variable::Bool(false)) ==> r == {OKV}(Variable::Bool(false)) && {S9} == {S1}"),
+    ("binop.exec.and_rhs_once", ["C07"],
+     f"self.op is And && {L} == {OKV}(Variable::Bool(true)) ==> r == {R} && {S9} == {S2}"),
+    ("binop.exec.or_short_circuit", ["C07"],
+     f"self.op is Or && {L} == {OKV}(Variable::Bool(true)) ==> r == {OKV}(Variable::Bool(true)) && {S9} == {S1}"),
+    ("binop.exec.or_rhs_once", ["C07"],
+     f"self.op is Or && {L} == {OKV}(Variable::Bool(false)) ==> r == {R} && {S9} == {S2}"),
+    ("binop.exec.rhs_second_once", ["C07"], f"{_strict} && {L} is Ok ==> {S9} == {S2}"),
+    ("binop.exec.rhs_error_stops", ["C07"], f"{_strict} && {L} is Ok && {R} is Err ==> r == {R}"),
+]
+_PURE = [("Add", "add"), ("Subtract", "subtract"), ("Multiply", "multiply"), ("Equal", "equal"),
+         ("NotEqual", "not_equal"), ("Greater", "greater"), ("GreaterOrEqual", "greater_equal"),
+         ("Lower", "lower"), ("LowerOrEqual", "lower_equal"), ("BitwiseAnd", "bitwise_and"),
+         ("BitwiseOr", "bitwise_or"), ("Xor", "xor")]
+_FALL = [("Divide", "divide"), ("Modulo", "modulo"), ("Pow", "pow"), ("LShift", "lshift"), ("RShift", "rshift"),
+         ("Filter", "filter"), ("Map", "map"), ("At", "at"), ("FunctionCall", "call"), ("Partition", "partition")]
+_C08OPS = {"Add", "Subtract", "Multiply", "Greater", "GreaterOrEqual", "Lower", "LowerOrEqual", "BitwiseAnd",
+           "BitwiseOr", "Xor", "Divide", "Modulo", "Pow", "LShift", "RShift"}
+
+
+def _props(v):
+    ps = []
+    if v in _C08OPS:
+        ps.append("C08")
+    if v in ("Equal", "NotEqual"):
+        ps.append("C19")
+    if v == "At":
+        ps.append("C09")
+    return ps or ["C07"]
+
+
+for _v, _m in _PURE:
+    _ens.append((f"binop.exec.dispatch_{_m}", _props(_v),
+                 f"self.op is {_v} && {_both} ==> r == {OKV}(op_{_m}({L}->Ok_0, {R}->Ok_0))"))
+for _v, _m in _FALL:
+    _ens.append((f"binop.exec.dispatch_{_m}", _props(_v),
+                 f"self.op is {_v} && {_both} ==> (match op_{_m}({L}->Ok_0, {R}->Ok_0) {{ "
+                 f"Ok(v) => r == {OKV}(v), Err(e) => r is Err }})"))
+_ASSIGN_PURE = [("AssignAdd", "add"), ("AssignSubtract", "subtract"), ("AssignMultiply", "multiply"),
+                ("AssignBitwiseAnd", "bitwise_and"), ("AssignBitwiseOr", "bitwise_or"), ("AssignXor", "xor")]
+_ASSIGN_FALL = [("AssignDivide", "divide"), ("AssignModulo", "modulo"), ("AssignLShift", "lshift"),
+                ("AssignRShift", "rshift"), ("AssignPow", "pow")]
+for _v, _m in _ASSIGN_PURE:
+    _ens.append((f"binop.exec.compound_{_m}", ["C08"],
+                 f"self.op is {_v} && {_both} ==> r == {OKV}(op_{_m}(cell_content({L}->Ok_0), {R}->Ok_0))"))
+for _v, _m in _ASSIGN_FALL:
+    _ens.append((f"binop.exec.compound_{_m}", ["C08"],
+                 f"self.op is {_v} && {_both} ==> (match op_{_m}(cell_content({L}->Ok_0), {R}->Ok_0) {{ "
+                 f"Ok(v) => r == {OKV}(v), Err(e) => r is Err }})"))
+unit(id="binop.exec", src=BINOP, path=[("impl", "Exec for BinOperation"), ("fn", "exec")],
+     impl="BinOperation", stubs=["and.exec", "or.exec"], fragments=["opstubs"],
+     rewrites=[("|_, b| b", "|_a, b| b")],
+     requires=[f"(self.op is And || self.op is Or) && {L} is Ok ==> {L}->Ok_0 is Bool"],
+     ensures=_ens)
+
+# ---------------------------------------------------------------- UnaryOperation::exec ----
+UNOP = "src/instruction/unary_operation.rs"
+E = f"eval_res(self.instruction, {S0})"
+E_ST = f"eval_st(self.instruction, {S0})"
+unit(id="unop.exec", src=UNOP, path=[("impl", "Exec for UnaryOperation"), ("fn", "exec")],
+     impl="UnaryOperation", fragments=["unstubs"],
+     requires=[
+         "!(self.op is All) && !(self.op is Any) && !(self.op is BitAnd) && !(self.op is BitOr)",
+         f"self.op is FunctionCall && {E} is Ok ==> {E}->Ok_0 is Function",
+     ],
+     ensures=[
+         ("unop.exec.operand_error_stops", ["C07"], f"{E} is Err ==> r == {E} && {S9} == {E_ST}"),
+         ("unop.exec.operand_once_before_operator", ["C07"],
+          f"!(self.op is FunctionCall) && !(self.op is Collect) ==> {S9} == {E_ST}"),
+         ("unop.exec.dispatch_not", ["C08"], f"self.op is Not && {E} is Ok ==> r == {OKV}(op_not({E}->Ok_0))"),
+         ("unop.exec.dispatch_unary_minus", ["C08"],
+          f"self.op is UnaryMinus && {E} is Ok ==> r == {OKV}(op_unary_minus({E}->Ok_0))"),
+         ("unop.exec.return_signals", ["C12"],
+          f"self.op is Return && {E} is Ok ==> r == Err::<Variable, ExecStop>(ExecStop::Return({E}->Ok_0))"),
+         ("unop.exec.dispatch_indirection", ["C07"],
+          f"self.op is Indirection && {E} is Ok ==> r == {OKV}(op_indirection({E}->Ok_0))"),
+         ("unop.exec.dispatch_iter", ["C07"], f"self.op is Iter && {E} is Ok ==> r == {OKV}(op_iter({E}->Ok_0))"),
+         ("unop.exec.dispatch_sum", ["C07"],
+          f"self.op is Sum && {E} is Ok ==> (match op_sum({E}->Ok_0) {{ Ok(v) => r == {OKV}(v), Err(e) => r is Err }})"),
+         ("unop.exec.dispatch_product", ["C07"],
+          f"self.op is Product && {E} is Ok ==> (match op_product({E}->Ok_0) {{ Ok(v) => r == {OKV}(v), Err(e) => r is Err }})"),
+     ])
+
+# ---------------------------------------------------------------- if-set / set / loop -----
+X = f"eval_res(self.expression.instruction, {S0})"
+X_ST = f"eval_st(self.expression.instruction, {S0})"
+_LAYER = f"st_insert(st_layer({X_ST}), self.ident, {X}->Ok_0)"
+unit(id="setifelse.exec", src=CF + "set_if_else.rs", path=[("impl", "Exec for SetIfElse"), ("fn", "exec")],
+     impl="SetIfElse", stubs=["iws.exec"],
+     ensures=[
+         ("setifelse.exec.expression_error_stops", ["C07", "C12"], f"{X} is Err ==> r == {X} && {S9} == {X_ST}"),
+         ("setifelse.exec.match_runs_body_with_binding", ["C07", "C12"],
+          f"{X} is Ok && spec_matches(spec_as_type({X}->Ok_0), self.var_type) ==> "
+          f"r == eval_res(self.if_match.instruction, {_LAYER}) && {S9} == {X_ST}"),
+         ("setifelse.exec.no_match_runs_else_only", ["C07", "C12"],
+          f"{X} is Ok && !spec_matches(spec_as_type({X}->Ok_0), self.var_type) ==> "
+          f"r == eval_res(self.else_instruction.instruction, {X_ST}) && {S9} == eval_st(self.else_instruction.instruction, {X_ST})"),
+     ])
+V_ = f"eval_res(self.instruction.instruction, {S0})"
+V_ST = f"eval_st(self.instruction.instruction, {S0})"
+unit(id="set.exec", src="src/instruction/set.rs", path=[("impl", "Exec for Set"), ("fn", "exec")],
+     impl="Set", stubs=["iws.exec"],
+     ensures=[
+         ("set.exec.expression_error_stops", ["C07"], f"{V_} is Err ==> r == {V_} && {S9} == {V_ST}"),
+         ("set.exec.binds_after_evaluating_once", ["C07"],
+          f"{V_} is Ok ==> r == {V_} && {S9} == st_insert({V_ST}, self.ident, {V_}->Ok_0)"),
+     ])
+unit(id="loop.exec", src="src/instruction/loop.rs", path=[("impl", "Exec for Loop"), ("fn", "exec")],
+     impl="Loop", stubs=["iws.exec"],
+     fn_attrs=["#[verifier::exec_allows_no_decreases_clause]"],
+     ensures=[
+         ("loop.exec.value_is_void", ["C12"], f"r is Ok ==> r == {OKV}(Variable::Void)"),
+         ("loop.exec.break_continue_do_not_escape", ["C12"],
+          "r is Err ==> (r->Err_0 is Return || r->Err_0 is Error)"),
+     ])
+
+# ---------------------------------------------------------------- block / function --------
+_BSEQ = f"seq_res(self.instructions@, st_layer({S0}), 0, Seq::empty())"
+unit(id="block.exec", src="src/instruction/block.rs", path=[("impl", "Exec for Block"), ("fn", "exec")],
+     impl="Block",
+     ensures=[
+         ("block.exec.stop_propagates", ["C12"], f"{_BSEQ} is Err ==> r == Err::<Variable, ExecStop>({_BSEQ}->Err_0)"),
+         ("block.exec.value_of_last_statement", ["C12"],
+          f"{_BSEQ} is Ok && {_BSEQ}->Ok_0.len() > 0 ==> r == {OKV}({_BSEQ}->Ok_0[{_BSEQ}->Ok_0.len() - 1])"),
+         ("block.exec.empty_is_void", ["C12"], f"{_BSEQ} is Ok && {_BSEQ}->Ok_0.len() == 0 ==> r == {OKV}(Variable::Void)"),
+         ("block.exec.runs_in_new_layer", ["C12"], f"{S9} == {S0}"),
+     ])
+_FSEQ = f"seq_res(self.body->Lang_0@, {S0}, 0, Seq::empty())"
+unit(id="function.exec", src="src/function.rs", path=[("impl", "Function"), ("fn", "exec")],
+     impl="Function",
+     rewrites=[("return (body)(interpreter)", "return NativeFn::call(body, interpreter)")],
+     requires=[f"self.body is Lang && {_FSEQ} is Err ==> !({_FSEQ}->Err_0 is Break) && !({_FSEQ}->Err_0 is Continue)"],
+     ensures=[
+         ("function.exec.falling_off_end_is_void", ["C12"],
+          f"self.body is Lang && {_FSEQ} is Ok ==> r == Ok::<Variable, ExecError>(Variable::Void)"),
+         ("function.exec.return_yields_value", ["C12"],
+          f"self.body is Lang && {_FSEQ} is Err && {_FSEQ}->Err_0 is Return ==> r == Ok::<Variable, ExecError>({_FSEQ}->Err_0->Return_0)"),
+         ("function.exec.error_passes", ["C12"],
+          f"self.body is Lang && {_FSEQ} is Err && {_FSEQ}->Err_0 is Error ==> r == Err::<Variable, ExecError>({_FSEQ}->Err_0->Error_0)"),
+     ])
+
+# ---------------------------------------------------------------- match -------------------
+MARM = CF + "match_arm.rs"
+unit(id="matcharm.exec", src=MARM, path=[("impl", "MatchArm"), ("fn", "exec")], impl="MatchArm",
+     stubs=["iws.exec"],
+     ensures=[
+         ("matcharm.exec.runs_arm_body", ["C12"],
+          f"r == arm_exec_res(*self, variable, {S0}) && {S9} == arm_exec_st(*self, variable, {S0})"),
+     ])
+unit(id="matcharm.covers", src=MARM, path=[("impl", "MatchArm"), ("fn", "covers")], impl="MatchArm",
+     stubs=["iws.exec"],
+     injections=[
+         ("Ok(match self {", "let ghost s0 = interpreter.st@;\n        Ok(match self {"),
+         ("for instruction in instructions.iter() {",
+          "for instruction in it: instructions.iter()\n"
+          "                    invariant\n"
+          "                        s0 == old(interpreter).st@,\n"
+          "                        *self is Value && self->Value_0@ == instructions@,\n"
+          "                        it.seq().len() == instructions@.len(),\n"
+          "                        forall|j: int| 0 <= j < it.seq().len() ==> *it.seq()[j] == instructions@[j],\n"
+          "                        cand_res(instructions@, *variable, s0, 0) == cand_res(instructions@, *variable, interpreter.st@, it.index@),\n"
+          "                        cand_st(instructions@, *variable, s0, 0) == cand_st(instructions@, *variable, interpreter.st@, it.index@),\n"
+          "                {"),
+     ],
+     ensures=[
+         ("matcharm.covers.candidates_top_to_bottom_until_first_equal", ["C07", "C12", "C19"],
+          f"r == arm_covers_res(*self, *variable, {S0}) && {S9} == arm_covers_st(*self, *variable, {S0})"),
+     ])
+M = f"eval_res(self.expression.instruction, {S0})"
+M_ST = f"eval_st(self.expression.instruction, {S0})"
+unit(id="match.exec", src=CF + "match.rs", path=[("impl", "Exec for Match"), ("fn", "exec")], impl="Match",
+     stubs=["iws.exec", "matcharm.covers", "matcharm.exec"],
+     requires=[f"{M} is Ok ==> match_decided(self.arms@, {M}->Ok_0, {M_ST}, 0)"],
+     injections=[
+         ("let variable = self.expression.exec(interpreter)?;",
+          "let variable = self.expression.exec(interpreter)?;\n        let ghost s1 = interpreter.st@;"),
+         ("for arm in self.arms.iter() {",
+          "for arm in it: self.arms.iter()\n"
+          "            invariant\n"
+          f"                {M} == {OKV}(variable) && s1 == {M_ST},\n"
+          "                it.seq().len() == self.arms@.len(),\n"
+          "                forall|j: int| 0 <= j < it.seq().len() ==> *it.seq()[j] == self.arms@[j],\n"
+          "                match_res(self.arms@, variable, s1, 0) == match_res(self.arms@, variable, interpreter.st@, it.index@),\n"
+          "                match_st(self.arms@, variable, s1, 0) == match_st(self.arms@, variable, interpreter.st@, it.index@),\n"
+          "                match_decided(self.arms@, variable, s1, 0) == match_decided(self.arms@, variable, interpreter.st@, it.index@),\n"
+          "                match_decided(self.arms@, variable, s1, 0),\n"
+          "        {"),
+     ],
+     ensures=[
+         ("match.exec.scrutinee_error_stops", ["C07", "C12"], f"{M} is Err ==> r == {M} && {S9} == {M_ST}"),
+         ("match.exec.first_covering_arm_top_to_bottom", ["C07", "C12"],
+          f"{M} is Ok ==> r == match_res(self.arms@, {M}->Ok_0, {M_ST}, 0) && {S9} == match_st(self.arms@, {M}->Ok_0, {M_ST}, 0)"),
+     ])
